@@ -41,25 +41,37 @@ def r08_1(ctx, rid="R08.1"):
                 if p.end[0] == "stop":
                     gate.add(tuple((a[1], v) for a, v in p.conds if a[0] == "call"))
             r.ob("traversal:Node::%s:gated-by-own-regex" % name, gate == {((test, 1),)}, f.site, "children are visited iff %s is true: %s" % (test.rsplit("::", 1)[1], sorted(gate)))
-            # every iteration calls the child and extends the result; no path leaves the loop early
+            # every iteration calls the child and adds its whole result to the accumulator; no path leaves
+            # the loop early.  The result is added with `extend(acc, result)` or by a nested loop over the
+            # result that pushes every element (what `flat_map(..).collect()` is).
             ok = True
             n = 0
+            acc = None
+            inner = [lp2 for lp2 in for_loops(f) if lp2 is not lp and lp2.next_block in lp.blocks() and mentions(lp2.source, lambda x: x[0] == "call" and x[1] == child)]
+            inner_ok = False
+            if len(inner) == 1:
+                its = [p for p in inner[0].iteration_paths(s)]
+                pushes = [e for p in its for e in p.events if e[0] == "call" and e[1] == "std::vec::Vec::push" and mentions(e[2][1], lambda x: x[0] == "call" and x[1].endswith("Iterator>::next"))]
+                inner_ok = len(its) == 1 and len(pushes) == 1 and its[0].end[0] == "stop" and its[0].end[1] in (inner[0].next_block, inner[0].head())
+                if inner_ok:
+                    acc = pushes[0][2][0]
+            inner_heads = {inner[0].next_block, inner[0].head()} if inner else set()
             for p in lp.iteration_paths(s):
-                n += 1
                 called = [e for e in p.events if e[0] == "call" and e[1] == child]
                 ext = [e for e in p.events if e[0] == "call" and e[1].endswith("Extend>::extend") and called and e[2][1] == called[0][3]]
+                if ext:
+                    acc = ext[0][2][0]
                 back = p.end[0] == "stop" and p.end[1] in (lp.next_block, lp.head())
-                if not (called and ext and back):
+                in_inner = inner_ok and (p.end[0] == "loop" or (p.end[0] == "stop" and p.end[1] in inner_heads) or back)
+                if inner_ok and (p.end[0] == "loop" or (p.end[0] == "stop" and p.end[1] in inner_heads)):
+                    continue  # the part of the iteration inside the nested loop is judged above
+                n += 1
+                if not (called and (ext or inner_ok) and back):
                     ok = False
-            r.ob("traversal:Node::%s:every-child-unioned" % name, ok and n == 1, f.site, "each iteration calls %s on the child, extends the result and continues (%d iteration paths)" % (child.rsplit("::", 2)[1] + "::" + name, n))
+            r.ob("traversal:Node::%s:every-child-unioned" % name, ok and n == 1, f.site, "each iteration calls %s on the child, adds the whole result and continues (%d iteration paths)" % (child.rsplit("::", 2)[1] + "::" + name, n))
             # the result returned is the accumulated vector
             rets = {p.end[1] for p in s.paths(start=lp.exit) if p.end[0] == "ret"}
-            acc = None
-            for p in lp.iteration_paths(s):
-                for e in p.events:
-                    if e[0] == "call" and e[1].endswith("Extend>::extend"):
-                        acc = e[2][0]
-            r.ob("traversal:Node::%s:returns-union" % name, rets == {acc}, f.site, "returns %s" % [show(x, f) for x in rets])
+            r.ob("traversal:Node::%s:returns-union" % name, acc is not None and rets == {acc}, f.site, "returns %s" % [show(x, f) for x in rets])
         # Leaf::find returns all values iff its regex matches
         f = F.method(LEAF, "find")
         r.analysed(f)
